@@ -56,6 +56,14 @@ fn main() {
         let n = args.get(4).and_then(|s| s.parse().ok()).unwrap_or(200);
         std::process::exit(rtcp_verif::fuzz::write_seeds(id, mode, &args[3], n));
     }
+    if args.len() >= 2 && args[1] == "--fuzz-mode" {
+        match rtcp_verif::fuzz::mode_of(id) {
+            Some(rtcp_verif::fuzz::Mode::Raw) => println!("raw"),
+            Some(rtcp_verif::fuzz::Mode::Spec) => println!("spec"),
+            None => std::process::exit(2),
+        }
+        return;
+    }
     if args.len() >= 3 && args[1] == "--merge-fuzz" {
         std::process::exit(run::merge_fuzz_evidence(id, &args[2]));
     }
